@@ -190,13 +190,13 @@ func createFilesInTar(info *nfpm.Info, tw *tar.Writer) ([]MtreeEntry, int64, err
 			entries = append(entries, MtreeEntry{
 				Destination: content.Destination,
 				Time:        content.ModTime().Unix(),
-				Mode:        int64(content.Mode()),
+				Mode:        int64(content.Mode() & 0o7777),
 				Type:        files.TypeDir,
 			})
 
 			if err := tw.WriteHeader(&tar.Header{
 				Name:     content.Destination,
-				Mode:     int64(content.Mode()),
+				Mode:     int64(content.Mode() & 0o7777),
 				Typeflag: tar.TypeDir,
 				ModTime:  content.ModTime(),
 				Uname:    content.FileInfo.Owner,
